@@ -426,9 +426,9 @@ def str_of_int(it, v):
     an atom with provenance (int(str(n)) == n is the assumed law, DESIGN 2.12)."""
     # enumerate only when the path condition confines n to a small window (decided by entailment,
     # never by a solver model: the exploration must replay deterministically)
-    if not it.ctx.feasible(z3.Or(v.t < -1, v.t > 40)):
+    if not it.ctx.feasible(z3.Or(v.t < 0, v.t > 9)):
         try:
-            return str(it.ctx.decide_by_model(v.t, cap=45))
+            return str(it.ctx.decide_by_model(v.t, cap=11))
         except EngineError:
             pass
     cache = it.ctx.__dict__.setdefault('strofint_cache', {})
@@ -480,7 +480,33 @@ def _definitely_differs(x, lit):
     return False
 
 
+def _int_atom(x):
+    """The int n if x is exactly str(n) (an atom with that provenance), else None."""
+    if isinstance(x, XStr) and len(x.segs) == 1 and x.segs[0][0] is True and \
+            isinstance(x.segs[0][1], Atom) and x.segs[0][1].int_of is not None:
+        return x.segs[0][1].int_of
+    return None
+
+
+def _canonical_int(lit):
+    try:
+        return int(lit) if str(int(lit)) == lit else None
+    except ValueError:
+        return None
+
+
 def str_eq(it, a, b):
+    # str(n) against literals: str(n) == lit  <=>  lit is the canonical decimal text of n
+    for x, y in ((a, b), (b, a)):
+        n = _int_atom(x)
+        if n is not None:
+            alts = _alts_of(y)
+            if alts is not None:
+                return b_or(*[b_and(g, mk_bool(T(n) == _canonical_int(t)))
+                              for g, t in alts if _canonical_int(t) is not None])
+            m = _int_atom(y)
+            if m is not None:
+                return mk_bool(T(n) == T(m))
     aa, ab = _alts_of(a), _alts_of(b)
     if aa is not None and ab is not None and not (isinstance(a, str) and isinstance(b, str)):
         return b_or(*[b_and(g1, g2) for g1, s1 in aa for g2, s2 in ab if s1 == s2])
